@@ -57,6 +57,9 @@ def verdict(case, il, signature="pass-decision"):
     """None, or (reason, signature): the first pass at which the real loop and the model differ."""
     if any(l.startswith("ABORT") for l in il):
         return ("the run did not finish: %s" % [l for l in il if l.startswith("ABORT")][0], signature + "-abort")
+    regs = [l.split()[-1] for l in il if l.startswith("P ") and " reg " in l]
+    if any(r != "w" for r in regs):
+        return ("the stream was first registered for `%s`; the start of the model (Pass.ArmedStart, theorem start_armed) is a stream registered for writable only until the protocol header is out" % regs, signature + "-start")
     ops, obs, ctx = extract(il)
     if not ops:
         return ("no pass of the I/O loop was logged (hook verif::pass_log)", signature + "-empty")
@@ -89,6 +92,8 @@ def hswrite_cases(tier):
     budgets = [0, 1, 3, 7, 8, 9, 20, 200, 250] if tier == "quick" else list(range(0, 12)) + [20, 100, 150, 200, 210, 230, 250, 270, 280, 300]
     cases = [Case("h%d" % b, ["run %d 250" % b], {"keep_prefix": 0}) for b in budgets]
     cases += [Case("m%d" % b, ["run %d 250 %d" % (b, mw)], {"keep_prefix": 0}) for b, mw in ((3, 1), (8, 2), (100, 7), (100000, 1), (100000, 5))]
+    # a server that greets on accept: Connection.Start is in the socket before the client's first poll
+    cases += [Case("g%d" % b, ["run-eager %d 250" % b], {"keep_prefix": 0}) for b in ([0, 5, 8, 100000] if tier == "quick" else [0, 1, 5, 8, 9, 100, 250, 100000])]
     return cases
 
 
